@@ -3,7 +3,7 @@
 export GOFLAGS=-mod=mod GOPROXY=off GOSUMDB=off GOTOOLCHAIN=local
 A=$1; N=$2; WT=/tmp/wt/$A; D=/tmp/seedout/$A/change$N
 pk=$(grep -m1 "^package" $D/demo_test.go | awk '{print $2}' | sed 's/_test$//')
-case $pk in fastq) dir=io/seqio/fastq;; fasta) dir=io/seqio/fasta;; gff) dir=io/featio/gff;; bed) dir=io/featio/bed;; morass) dir=morass;; concurrent) dir=concurrent;; *) echo "$A $N unknown package $pk"; exit 9;; esac
+case $pk in fastq) dir=io/seqio/fastq;; fasta) dir=io/seqio/fasta;; gff) dir=io/featio/gff;; bed) dir=io/featio/bed;; morass) dir=morass;; concurrent) dir=concurrent;; seqio) dir=io/seqio;; featio) dir=io/featio;; linear) dir=seq/linear;; alphabet) dir=alphabet;; feat) dir=feat;; seq) dir=seq;; *) echo "$A $N unknown package $pk"; exit 9;; esac
 SUITE="./io/... ./morass/... ./concurrent/... ./align/pals/... ./seq/... ./alphabet/... ./feat/..."
 cd $WT && git checkout -q -- . && git clean -fdq
 {
